@@ -4,7 +4,7 @@ package main
 //
 // A real haproxy.Instance (external mode, temp dir, simulated sockets; the C12 instance fixture) is driven at
 // the level of ingresses: ingress X = host hX.local (TLS, own certificate, bind option alpn v<T>, a redirect
-// path /r<T>) + backend X of the C05 name pool (cfg = 4*conf+epv: `balance cfg<conf>`, one real endpoint
+// path /r<T>) + backend X of the C05 name pool (cfg = 4*conf+epv: `balance cfg<conf/2>`, one real endpoint
 // 10.0.0.<1+epv>, S empty slots) with the two paths / and /a<conf> (exact match when conf%4 == 3); an ODD conf
 // gives the two paths different per-path configuration (max body size), so the backend needs ACLs and
 // `_back_<id>_idpath__*.map` exist.  One tcp service with TLS (sni map, crt-list, listen section).
@@ -67,8 +67,16 @@ func c05fxDeclare(e *c12inst, names []int, x int, g c05ing) {
 	cfg := e.inst.Config()
 	ns, name, port := c05name(names[x])
 	b := cfg.Backends().AcquireBackend(ns, name, port)
-	c12fill(b, g.c, g.s)
 	conf := g.c / 4
+	// like c12fill, but confs 2k and 2k+1 share everything except their paths (second path, per-path
+	// configuration): Shrink's match has to look at the paths to tell them apart
+	b.BalanceAlgorithm = fmt.Sprintf("cfg%d", conf/2)
+	b.Dynamic.DynUpdate = true
+	b.Dynamic.BlockSize = 1
+	b.AcquireEndpoint(fmt.Sprintf("10.0.0.%d", 1+g.c%4), 8080, "")
+	for i := 0; i < g.s; i++ {
+		b.AddEmptyEndpoint()
+	}
 	h := cfg.Hosts().AcquireHost(c05host(x))
 	h.TLS.TLSFilename = fmt.Sprintf("/tls/h%d.pem", x)
 	h.TLS.TLSHash = "1"
@@ -424,6 +432,7 @@ func c05fxRun(queue bool, n int, names, shardOf []int, ops []string) c05fxRes {
 	}
 	args := fmt.Sprintf("fx %s %d %s %s", qs, n, strings.Join(shards, "."), strings.Join(ops, ","))
 	nfault, nok, okAfterFault := 0, 0, 0
+	var fired []string
 	out := func() (res string) {
 		var e *c12inst
 		defer func() {
@@ -455,6 +464,15 @@ func c05fxRun(queue bool, n int, names, shardOf []int, ops []string) c05fxRes {
 				err := w.update(c12parseFault(fs))
 				if fs != "" {
 					nfault++
+				}
+				if fs != "" {
+					// a fault fires iff the update writes the file: the guards decide
+					k := fs[:2]
+					if err != nil {
+						fired = append(fired, "fx_fault_fired_"+k)
+					} else {
+						fired = append(fired, "fx_fault_file_not_written_"+k)
+					}
 				}
 				if err != nil {
 					obs = append(obs, "e1")
@@ -503,8 +521,8 @@ func c05fxRun(queue bool, n int, names, shardOf []int, ops []string) c05fxRes {
 		}
 		return strings.Join(obs, ";")
 	}()
-	return c05fxRes{args, out, []string{"mode_fx", fmt.Sprintf("fx_faults_%d", min(nfault, 4)), fmt.Sprintf("fx_shards_%d", n),
-		"fx_queue_" + qs, fmt.Sprintf("fx_ok_updates_after_a_fault_%d", min(okAfterFault, 4))}}
+	return c05fxRes{args, out, append(fired, "mode_fx", fmt.Sprintf("fx_faults_%d", min(nfault, 4)), fmt.Sprintf("fx_shards_%d", n),
+		"fx_queue_"+qs, fmt.Sprintf("fx_ok_updates_after_a_fault_%d", min(okAfterFault, 4)))}
 }
 
 type c05fxJobs struct {
@@ -746,7 +764,7 @@ func runC05fx(c *ctx) {
 	j.flush()
 	c05fxExhaustive(j, c.thorough())
 	j.flush()
-	count := 400
+	count := 1500
 	if c.thorough() {
 		count = 6000
 	}
